@@ -368,6 +368,8 @@ class Scheduler:
                 if hits < self.loc_cap:
                     is_hot = loc in self.hot
                     prob = self.p_hot if is_hot else self.p
+                    if loc.startswith("<coop>"):
+                        prob = max(prob, 0.5)  # rare, deliberate yield points are taken half of the time
                     if is_hot and self.hot_skip:
                         seen = self.hot_visits.get(key, 0)
                         self.hot_visits[key] = seen + 1
@@ -410,6 +412,22 @@ class Scheduler:
         self.sems[to].release()
 
 
+ACTIVE = None  # the scheduler of the run in progress (set by Monitor.install)
+
+
+def cooperative_yield(label):
+    """A yield point placed by harness data instead of by a line event: the module bodies of the pool's late
+    modules call it between the two bytecodes of `class X(Base): ...` + `X = dataclass(X)`, where the interpreter
+    may switch threads while the new class is already visible through Base.__subclasses__()."""
+    sched = ACTIVE
+    if sched is None:
+        return
+    t = sched.idents.get(threading.get_ident())
+    if t is None or sched.suppress:
+        return
+    sched.yield_point(t, "<coop>" + label)
+
+
 class Monitor:
     """Installs the monitoring callbacks for one run."""
 
@@ -435,6 +453,8 @@ class Monitor:
                 return
             sched.yield_point(t, short_loc(code, -offset))
 
+        global ACTIVE
+        ACTIVE = sched
         mon.use_tool_id(TOOL, "xsv-sched")
         ev = mon.events.INSTRUCTION if self.opcode else mon.events.LINE
         mon.register_callback(TOOL, ev, on_instr if self.opcode else on_line)
@@ -442,6 +462,8 @@ class Monitor:
             mon.set_local_events(TOOL, code, ev)
 
     def uninstall(self):
+        global ACTIVE
+        ACTIVE = None
         for code in self.codes:
             mon.set_local_events(TOOL, code, 0)
         mon.free_tool_id(TOOL)
